@@ -170,8 +170,9 @@ func (e *Env) evalLazy(x Expr) TVal {
 			bn := "q_" + v.Name
 			ne = ne.with(v.Name, TVal{term: bn, ty: ty})
 			binders = append(binders, "("+bn+" "+ty.sort+")")
-			if ty.gt != nil && e.g != nil {
-				if inv := e.g.typeInv(e.cur, bn, ty.gt, 0); inv != "true" {
+			if ty.gt != nil {
+				// integer ranges only: allocation bounds depend on the state and must not guard a bound variable
+				if inv := e.c.valueTypeInv(bn, ty.gt, 0); inv != "true" {
 					guards = append(guards, inv)
 				}
 			}
